@@ -64,6 +64,10 @@ pub struct KnownFinding {
     /// name of the generator avoidance that steers most runs away from this finding
     #[serde(default)]
     pub avoid: Option<String>,
+    /// kinds that must all be present in the minimised scenario (used instead of the exact
+    /// multiset `kinds` when the shape of the history varies)
+    #[serde(default)]
+    pub requires_kinds: Vec<String>,
 }
 
 pub fn load_known_findings() -> Vec<KnownFinding> {
@@ -442,6 +446,7 @@ pub fn run_batch(prop: &dyn Property, tier: &str, seed: u64) -> BatchOutcome {
                 && k.clause == sig.clause
                 && k.class == sig.class
                 && (k.kinds.is_empty() || k.kinds == kinds)
+                && k.requires_kinds.iter().all(|r| kinds.contains(r))
         });
         // confirm the minimised scenario replays
         let replays = prop
